@@ -219,3 +219,13 @@ fn format12_mappings() {
         assert!(got == Ok(seen), "mappings_fn lists exactly the pairs map_glyph returns");
     }
 }
+
+//@ harness subheader_contains kind=complete fns=SubHeader::contains
+#[kani::proof]
+fn subheader_contains() {
+    // cmap format 2 sub-header: the codes firstCode .. firstCode + entryCount - 1; any field values, no panic
+    let h = SubHeader { first_code: kani::any(), entry_count: kani::any(), id_delta: kani::any(), id_range_offset: kani::any() };
+    let v: u16 = kani::any();
+    let want = (v as u32) >= h.first_code as u32 && (v as u32) < h.first_code as u32 + h.entry_count as u32;
+    assert!(h.contains(v) == want);
+}
